@@ -56,6 +56,10 @@ AddProg(M, D, b) ==
      \o [j \in 1..(n - k) |-> Ent(k + j, [M[k + j] EXCEPT !.offset = off + b.sz])]
      \o <<Dat(off, b.u, b.sz)>>
 
+\* what-if (not what the library does): the bytes first, then the entry, then the slots behind it
+AddProgBytesFirst(M, D, b) ==
+  LET p == AddProg(M, D, b) IN <<p[Len(p)]>> \o SubSeq(p, 1, Len(p) - 1)
+
 \* remove: the table first - every entry that moves (down in the file or up in the table), in
 \* table order, then the fresh unused slot in the last position -, then the bytes behind the removed
 \* block are written again at its offset, then the file is cut
